@@ -59,7 +59,7 @@ def context_of(b: bytes, pos: int):
         for t in a[3].split():
             o, l, k = t.split(":", 2)
             o, l = int(o), int(l)
-            if k in ("tagged-block", "image-resource") and o <= pos < o + l:
+            if k in ("tagged-block", "image-resource") and o <= pos <= o + l and (best is None or pos < o + l):
                 if k == "tagged-block":
                     best = {"container": k, "key": b[o + 4:o + 8].decode("latin1"), "offset": o, "length": l}
                 else:
@@ -261,7 +261,14 @@ def run_generated(ctx):
             # instances the library itself reads back as what was written: an object whose count attribute contradicts its
             # own list (layer_count = 5 with one record) is not a value the format can hold - the library's reader rejects
             # or re-reads it differently, and C01 owns that
-            if r.verdict != "ok" or pg.format_excluded(c):
+            # ... except a variant that only changes the length of the content of a str / bytes attribute: every length such
+            # an attribute has on disk is derived by the writer, the object cannot contradict itself
+            try:
+                strvar = ("+" not in c.field and isinstance(getattr(c.x, c.field, None), (str, bytes))
+                          and isinstance(getattr(c.base, c.field, None), (str, bytes)) and c.group == "length")
+            except Exception:  # noqa
+                strvar = False
+            if (r.verdict != "ok" and not strvar) or pg.format_excluded(c):
                 ctx.hist("payload_walker", "instance-not-round-tripping (skipped)")
                 continue
             d = pg.container_document(c)
@@ -361,7 +368,7 @@ def callers_raw_bytes(b: bytes, pos: int):
             continue
         i = b.find(blob)
         while i >= 0:
-            if i <= pos < i + len(blob):
+            if i <= pos <= i + len(blob):      # a read that finds nothing left fails *at* the end of the blob
                 return True
             i = b.find(blob, i + 1)
     return False
